@@ -116,6 +116,9 @@ pub fn run(cli: &Cli, rep: &Report) {
         vec![Seg::C(4096)],
         vec![Seg::C(4097)],
         vec![Seg::R(70000)],
+        // LZMA2 state resets inside a block: LZMA chunk, uncompressed chunks, LZMA chunk again (see C03)
+        vec![Seg::C(5000), Seg::R(140_000), Seg::P(3, 5000)],
+        vec![Seg::C(5000), Seg::R(140_000), Seg::C(5000)],
     ];
     if thorough {
         shapes.push(vec![Seg::X(300_000)]);
